@@ -38,7 +38,7 @@ def eval_case(case):
         R[k] = R.get(k, 0) + n
 
     with common.Scratch("cv11") as sc:
-        pr = statecheck.std_project(sc.root, rich_outputs=True, disable_git=not case["git"], hostile=case.get("hostile"))
+        pr = statecheck.std_project(sc.root, rich_outputs=True, disable_git=not case["git"], hostile=case.get("hostile"), extend_seed=case.get("extend"))
         if case["dangling"]:
             pr.scripts["//a:e2"]["steps"].insert(0, ["symlink", "dangling", "no/such/target"])
             pr.write_scn()
@@ -174,7 +174,7 @@ def eval_case(case):
                     shutil.rmtree(px) if os.path.isdir(px) and not os.path.islink(px) else os.unlink(px)
             dest = pr
         else:
-            dest = statecheck.std_project(sc.sub("clone"), name="q")
+            dest = statecheck.std_project(sc.sub("clone"), name="q", extend_seed=case.get("extend"))
         if case.get("killed_restore_first"):
             # a first restore is SIGKILLed after it has placed version directories but before it commits;
             # the retry may be refused (leftovers) - then `cond gc` clears them and the next retry must be exact
@@ -304,6 +304,11 @@ def main(tier, n=None):
         cases.append({"seed": rng.randrange(1 << 30), "nruns": rng.randint(1, 4), "task": rng.choice([None, None, "//:g", "//:dd", "//a/b:e3", "//:k", "//c-d:e4", "//:d1", "//a:c1", "//c-d:solo", "//:plain"]),
                       "latest": rng.random() < 0.4, "out": rng.choice(["file", "dir", "default"]), "into": rng.choice(["clean", "clone"]), "git": rng.random() < 0.4,
                       "dangling": rng.random() < 0.25, "foreign": rng.random() < 0.35, "stale_archive_index": rng.random() < 0.3, "branch_switch": rng.random() < 0.4, "killed_restore_first": rng.random() < 0.25, "hostile": realrun.hostile_choice(rng)})
+        if rng.random() < 0.5:
+            # a random acyclic extension of the project; the archived task is then (mostly) the group over it
+            cases[-1]["extend"] = rng.randrange(1 << 30)
+            if rng.random() < 0.7:
+                cases[-1]["task"] = "//:rx"
     cli.warm()
     res = common.parallel_map(eval_case, cases, timeout=900)
     rep.merge_pool(res, cases)
